@@ -501,13 +501,30 @@ static PIP_Problem make_pip(Rng& r) {
   }
   return p;
 }
+// behavioural view of a solution tree, node by node: every node reached by traversal is printed ON ITS OWN
+// (PIP_Tree_Node::print numbers the node's artificial parameters by walking its ancestors), and its chain of
+// parent() links is walked up and must end in the root after exactly `depth` steps (links are not part of a dump)
+static void walk_pip(std::ostream& o, const PIP_Tree_Node* root, const PIP_Tree_Node* nd, unsigned depth, const std::string& path) {
+  if (nd == 0) { o << "node " << path << " bottom\n"; return; }
+  unsigned up = 0; const PIP_Tree_Node* a = nd;
+  while (a->parent() != 0 && up <= depth + 1) { a = a->parent(); ++up; }
+  o << "node " << path << " depth " << depth << " parents " << up << " reaches_root " << (a == root ? 1 : 0)
+    << " artificials " << std::distance(nd->art_parameter_begin(), nd->art_parameter_end()) << "\n";
+  nd->print(o, 2);
+  if (const PIP_Decision_Node* d = nd->as_decision()) {
+    walk_pip(o, root, d->child_node(true), depth + 1, path + "t");
+    walk_pip(o, root, d->child_node(false), depth + 1, path + "f");
+  }
+}
 static std::string battery(PIP_Problem& p, uint64_t seed) {
   Rng r(seed); std::ostringstream o;
   using namespace IO_Operators;
   PIP_Problem_Status st = p.solve(); o << p.space_dimension() << ' ' << int(st) << '\n';
-  if (st == OPTIMIZED_PIP_PROBLEM) p.print_solution(o);
+  if (st == OPTIMIZED_PIP_PROBLEM) { p.print_solution(o); walk_pip(o, p.solution(), p.solution(), 0, "r"); }
+  // incremental re-solve on top of the (loaded) tree: the resulting trees must be identical as well
   p.add_constraint(rexpr(r, p.space_dimension(), 2) >= 0);
-  o << int(p.solve()) << '\n';
+  PIP_Problem_Status st2 = p.solve(); o << int(st2) << '\n';
+  if (st2 == OPTIMIZED_PIP_PROBLEM) { p.print_solution(o); walk_pip(o, p.solution(), p.solution(), 0, "r"); }
   o << "@@DUMP@@\n"; p.ascii_dump(o); return o.str();
 }
 
